@@ -22,6 +22,9 @@ S(p, v) == [prop |-> p, v |-> v]
 ItemSettings == {S("item_delimiter", v) : v \in {w \in DelimiterValues : w.kind # "char" \/ CanSpell(w.sp, w.cp)}}
 CharSettings ==
        {S("quote_character", Ch("literal", cp)) : cp \in {34, 39, 33, 126, 92, 44, 65}} \cup {S("quote_character", Ch("dec", 34))}
+  \* values that are no single character of the documented set: nothing at all, two neighbours of the set, the set itself
+  \cup {S(p, Bad(k)) : p \in {"quote_character", "escape_character", "decimal_separator"}, k \in {"empty", "neighbours"}}
+  \cup {S("thousands_separator", Bad("neighbours"))}
   \cup {S("escape_character", Ch("literal", cp)) : cp \in {34, 92, 39, 44}}
   \cup {S("decimal_separator", Ch("literal", cp)) : cp \in {46, 44, 59}}
   \cup {S("thousands_separator", Ch("literal", cp)) : cp \in {46, 44, 59, 32}} \cup {S("thousands_separator", Bad("empty"))}
